@@ -36,15 +36,31 @@ def op_pipeline(req):
     d = tempfile.mkdtemp(prefix="vh_")
     try:
         gpath, tpath = os.path.join(d, "genes.tsv"), os.path.join(d, "tes.tsv")
-        gen.write_pair(req["case"], gpath, tpath)
+        cpath = os.path.join(d, "cfg.ini")
+        gen.write_pair(req["case"], gpath, tpath, cpath)
         out = os.path.join(d, "out")
         ovl = os.path.join(out, "tmp", "overlap")
         os.makedirs(ovl)
-        first, delta, last = req["case"]["windows"]
-        windows = range(first, last + 1, delta)
+        # the windows are what the code's own configuration parser makes of (first, delta, last)
+        windows = process_genome.parse_algorithm_config(cpath)["window_range"]
         genome = req.get("genome", "G")
         try:
-            return _pipeline_body(req, d, gpath, tpath, out, ovl, windows, genome)
+            skip = set()
+            before = req["case"].get("before")
+            if before:
+                # the output directory has been used before, for another annotation pair under other file names and
+                # the same or another genome id
+                import time
+                g0, t0, c0 = os.path.join(d, "genes_earlier.tsv"), os.path.join(d, "tes_earlier.tsv"), os.path.join(d, "cfg_earlier.ini")
+                gen.write_pair(before["case"], g0, t0, c0)
+                w0 = process_genome.parse_algorithm_config(c0)["window_range"]
+                _pipeline_body({}, d, g0, t0, out, ovl, w0, before["genome"])
+                # result files the earlier run left behind for chromosomes (or a genome) that are not part of this run
+                skip = set("%s_%s.h5" % (before["genome"], c) for c in set(g["chrom"] for g in before["case"]["genes"])) - \
+                    set("%s_%s.h5" % (genome, c) for c in set(g["chrom"] for g in req["case"]["genes"]))
+                time.sleep(0.03)
+                gen.write_pair(req["case"], gpath, tpath, cpath)
+            return _pipeline_body(req, d, gpath, tpath, out, ovl, windows, genome, skip)
         except BaseException as e:  # noqa
             left = sorted(fn for fn in os.listdir(out) if fn.endswith(".h5")) if os.path.isdir(out) else []
             return {"ok": False, "exc": type(e).__name__, "msg": str(e)[:500], "tb": traceback.format_exc()[-1500:], "result_files": left}
@@ -52,7 +68,7 @@ def op_pipeline(req):
         shutil.rmtree(d, ignore_errors=True)
 
 
-def _pipeline_body(req, d, gpath, tpath, out, ovl, windows, genome):
+def _pipeline_body(req, d, gpath, tpath, out, ovl, windows, genome, skip=()):
     from transposon.preprocess import PreProcessor
     from transposon.overlap_manager import _OverlapJob, _calculate_overlap_job
     from transposon.gene_data import GeneData
@@ -88,14 +104,15 @@ def _pipeline_body(req, d, gpath, tpath, out, ovl, windows, genome):
         for mjob in mjobs:
             process_genome.calc_merge(mjob)
         for fn in sorted(os.listdir(out)):
-            if fn.endswith(".h5"):
+            if fn.endswith(".h5") and fn not in skip:
                 r = read_result_h5(os.path.join(out, fn))
                 r["file"] = fn
                 files.append(r)
         rev = read_tsv(pre.te_revised)
         caches = {}
+        mine = set(os.path.basename(t_path) for _g, t_path in pre.data_filepaths())
         for fn in sorted(os.listdir(pre.cache_dir)):
-            if fn.endswith("_TEData.tsv"):
+            if fn.endswith("_TEData.tsv") and fn in mine:
                 caches[fn] = read_tsv(os.path.join(pre.cache_dir, fn))
         return {"ok": True, "files": files, "revised": rev, "te_caches": caches}
 
@@ -106,15 +123,23 @@ def op_preprocess(req):
     from transposon.preprocess import PreProcessor
     d = tempfile.mkdtemp(prefix="vh_")
     try:
-        gpath, tpath = os.path.join(d, "genes.tsv"), os.path.join(d, "tes.tsv")
-        gen.write_pair(req["case"], gpath, tpath)
         out = os.path.join(d, "out")
         os.makedirs(out)
+        if req.get("before") is not None:
+            # the output directory has been used before: another annotation pair, under other file names, same genome id
+            import time
+            g0, t0 = os.path.join(d, "genes_earlier.tsv"), os.path.join(d, "tes_earlier.tsv")
+            gen.write_pair(req["before"], g0, t0)
+            PreProcessor(g0, t0, out, False, req.get("before_genome") or req.get("genome", "G"), False).process()
+            time.sleep(0.03)
+        gpath, tpath = os.path.join(d, "genes.tsv"), os.path.join(d, "tes.tsv")
+        gen.write_pair(req["case"], gpath, tpath)
         pre = PreProcessor(gpath, tpath, out, req.get("reset_h5", False), req.get("genome", "G"), req.get("revise_anno", False))
         pre.process()
         caches = {}
+        mine = set("%s_%s_TEData.tsv" % (req.get("genome", "G"), c) for c in set(t["chrom"] for t in req["case"]["tes"]))
         for fn in sorted(os.listdir(pre.cache_dir)):
-            if fn.endswith("_TEData.tsv"):
+            if fn.endswith("_TEData.tsv") and fn in mine:
                 caches[fn] = read_tsv(os.path.join(pre.cache_dir, fn))
         return {"ok": True, "revised": read_tsv(pre.te_revised), "te_caches": caches}
     finally:
